@@ -98,6 +98,76 @@ Proof.
   cbn [tb set_ents e_rebuilt]. repeat split. unfold len. cbn [ents set_ents]. rewrite app_length. cbn [length]. lia.
 Qed.
 
+(* THE CLAUSE IN ITS OWN WORDS, OVER RUNS OF ANY LENGTH: a run of insertions of fresh keys, none of which evicts (and, nothing
+   being erased, none of which leaves a tombstone: o_tomb = 0), interleaved with any number of operations that do not touch
+   the table (lookups, peeks, touches, iteration, size queries) *)
+Definition table_neutral (p : op) : bool :=
+  match p with
+  | Get _ | GetEntry _ | Peek _ | PeekEntry _ | Contains _ | Touch _ | GetLru | PeekLru | PeekMru
+  | IterOp _ | DebugFmt | Len | IsEmpty | CurrentSize | MaxSize | Capacity => true
+  | _ => false
+  end.
+Inductive FreshRun (E VS : N) : cache -> nat -> cache -> Prop :=
+| fr_nil s : FreshRun E VS s 0 s
+| fr_insert s n s1 k v o s' evs : FreshRun E VS s n s1 ->
+    kheap k + vheap v + E < W -> find_id (kid k) (ents s1) = None -> o_tomb o = 0 ->
+    stepA E VS fixed s1 (Insert k v) o = Some (s', OInsOk None, evs) -> e_evicted evs = [] ->
+    FreshRun E VS s (S n) s'
+| fr_other s n s1 p o s' out evs : FreshRun E VS s n s1 -> table_neutral p = true ->
+    stepA E VS fixed s1 p o = Some (s', out, evs) -> FreshRun E VS s n s'.
+
+Lemma do_touch_keeps s q : tb (fst (do_touch s q)) = tb s /\ len (fst (do_touch s q)) = len s.
+Proof.
+  unfold do_touch. destruct (find_id q (ents s)) as [e|] eqn:Hf; [|split; reflexivity]. cbn [fst]. split; [reflexivity|].
+  unfold len. cbn [ents set_ents]. destruct (find_id_some _ _ _ Hf) as (l1 & l2 & Hl & Hr & _). rewrite Hr, Hl, !app_length. cbn [length]. f_equal. lia.
+Qed.
+Lemma neutral_keeps E VS s p o s' out evs : table_neutral p = true -> stepA E VS fixed s p o = Some (s', out, evs) ->
+  tb s' = tb s /\ len s' = len s /\ e_rebuilt evs = false.
+Proof.
+  intros Hn H. destruct p; try discriminate; cbn [stepA] in H;
+    try (injection H as <- <- <-; repeat split; reflexivity);
+    try (pose proof (do_touch_keeps s q) as [Ht Hl]; destruct (do_touch s q) as [s1 r]; cbn [fst] in Ht, Hl; injection H as <- <- <-; repeat split; assumption).
+  (* GetLru *) destruct (ents s) as [|e r] eqn:Hl; injection H as <- <- <-; repeat split; try reflexivity.
+  unfold len. cbn [ents set_ents]. rewrite Hl, app_length. cbn [length]. f_equal. lia.
+Qed.
+
+(* a cache created with_capacity(n) takes n fresh insertions — interleaved with any lookups — without its table, hence its
+   capacity, ever changing and without a single rebuild *)
+Theorem C13_with_capacity_run : forall E VS, 0 < E -> VS <= E -> forall mx n s0, mx < W -> new_cache E mx n = Some s0 ->
+  forall m s, FreshRun E VS s0 m s -> N.of_nat m <= n ->
+  tb s = tb s0 /\ capacity (tb s) = capacity (tb s0) /\ len s = N.of_nat m /\ Reach E VS s.
+Proof.
+  intros E VS HE HV mx n s0 Hmx Hnew m s Hrun. destruct (C13_with_capacity_new E mx n s0 Hnew) as (Hcap & Htz & Hents).
+  induction Hrun as [s|s m s1 k v o s' evs Hrun IH Hwf Hfresh Hot Hstep Hev|s m s1 p o s' out evs Hrun IH Hneu Hstep]; intros Hm.
+  - repeat split; [unfold len; rewrite Hents; reflexivity|exact (reach_new E VS mx n s Hmx Hnew)].
+  - assert (Hm' : N.of_nat m <= n) by lia. destruct (IH Hnew Hcap Htz Hents Hm') as (Ht & _ & Hlen & HR).
+    assert (HI : Inv E s1) by (apply (reach_inv E VS HE HV); exact HR).
+    destruct (C13_with_capacity_step E VS HE HV s1 k v o s' evs HI Hwf Hfresh) as (Ht' & Hlen' & _); auto; try (rewrite Ht; auto; lia).
+    repeat split; try congruence; [lia|]. change s' with (fst (fst (s', OInsOk None, evs))). eapply reach_step; eauto. exact Hwf.
+  - destruct (IH Hnew Hcap Htz Hents Hm) as (Ht & _ & Hlen & HR). destruct (neutral_keeps E VS s1 p o s' out evs Hneu Hstep) as (Ht' & Hlen' & _).
+    repeat split; try congruence. change s' with (fst (fst (s', out, evs))). eapply reach_step; eauto. destruct p; try discriminate; exact I.
+Qed.
+
+(* such runs exist: with_capacity(3), three fresh insertions with a lookup in between; the capacity (3) never moves *)
+Example C13_with_capacity_run_example :
+  let o := {| o_tomb := 0; o_reuse := false; o_alloc := true |} in
+  exists s0 s, new_cache 72 1000 3 = Some s0 /\ FreshRun 72 24 s0 3 s /\ capacity (tb s0) = 3 /\ capacity (tb s) = 3 /\ len s = 3.
+Proof.
+  cbv zeta. pose (o := {| o_tomb := 0; o_reuse := false; o_alloc := true |}).
+  assert (H0 : exists s0, new_cache 72 1000 3 = Some s0) by (eexists; vm_compute; reflexivity). destruct H0 as [s0 H0].
+  pose proof H0 as H0'. vm_compute in H0'. injection H0' as <-.
+  eexists _, _. split; [exact H0|]. split; [|split; [|split]].
+  - eapply (fr_insert 72 24 _ _ _ {| kid := 3; ktok := 7; kheap := 0 |} {| vtok := 6; vtag := 3; vheap := 0 |} o).
+    eapply (fr_other 72 24 _ _ _ (Get 1) o).
+    eapply (fr_insert 72 24 _ _ _ {| kid := 2; ktok := 5; kheap := 0 |} {| vtok := 4; vtag := 2; vheap := 0 |} o).
+    eapply (fr_insert 72 24 _ _ _ {| kid := 1; ktok := 3; kheap := 0 |} {| vtok := 2; vtag := 1; vheap := 0 |} o).
+    apply fr_nil.
+    all: try (vm_compute; reflexivity).
+  - reflexivity.
+  - reflexivity.
+  - reflexivity.
+Qed.
+
 (* automatic growth: only when the table is full, to the smallest table size holding twice the entries;
    the capacity afterwards is below max(4 x entries, 16) *)
 Theorem C13_auto_growth : forall E VS, 0 < E -> VS <= E -> forall s k v o s' old evs,
@@ -177,3 +247,4 @@ Print Assumptions C13_monitor_growth_try_insert.
 Print Assumptions C13_pinned_shrink_refuted.
 Print Assumptions C13_monitor_sound.
 Print Assumptions C13_pointer_level.
+Print Assumptions C13_with_capacity_run.
